@@ -180,25 +180,29 @@ type Codec struct {
 	Gen func(r *Rand) (Dump, []byte, bool)
 	// Small codecs get the exhaustive short-input leg.
 	Small bool
-	// Corpus: fixed inputs run first.
-	Corpus [][]byte
+	// Corpus: fixed inputs run first (kind "corpus"); CorpusValid: fixed inputs that are
+	// well-formed encodings and must therefore be accepted (kind "cvalid"). Truncations and
+	// trailing-garbage variants of both are run too (kinds "ctrunc"/"ctrail"), so that a
+	// finding has an input that does not depend on the seed.
+	Corpus      [][]byte
+	CorpusValid [][]byte
 	// Hint: plausible first bytes for the random leg.
 	Hint []byte
 }
 
 type Case struct {
-	Codec string `json:"codec"`
-	ID    int    `json:"id"`
-	Ctx   []int  `json:"ctx"`
-	Kind  string `json:"kind"`
-	In    string `json:"in"`
-	Res   string `json:"res"` // ok | err | panic
-	Dump  Dump   `json:"dump,omitempty"`
+	Codec string  `json:"codec"`
+	ID    int     `json:"id"`
+	Ctx   []int   `json:"ctx"`
+	Kind  string  `json:"kind"`
+	In    string  `json:"in"`
+	Res   string  `json:"res"` // ok | err | panic
+	Dump  Dump    `json:"dump"`
 	Reenc *string `json:"reenc"` // nil: Marshal of the decoded value failed (or not ok)
 	// monitors evaluated on the implementation
 	FixBytes *bool  `json:"fix_bytes,omitempty"` // Marshal(Unmarshal(reenc)) == reenc
 	FixVal   *bool  `json:"fix_val,omitempty"`   // dump(Unmarshal(reenc)) == dump
-	VDump    Dump   `json:"vdump,omitempty"`     // kind=valid: dump of the generated value
+	VDump    Dump   `json:"vdump"`               // kind=valid: dump of the generated value
 	Parent   string `json:"parent,omitempty"`    // kind=trunc/trail: the valid encoding it came from
 	Panic    string `json:"panic,omitempty"`
 }
@@ -254,14 +258,31 @@ func Run(t *testing.T, codecs []*Codec) {
 	t.Helper()
 	out := NewOut(t)
 	thorough := Thorough()
-	nValid, nRand := 14, 70
+	nValid, nRand := 10, 60
 	if thorough {
 		nValid, nRand = 300, 4000
 	}
 	for ci, c := range codecs {
 		rnd := NewRand(Seed()*1000003 + uint64(c.ID)*7919 + uint64(ci))
+		emitCorpus := func(kind string, in []byte) {
+			out.Emit(observe(c, kind, in))
+			parent := hex.EncodeToString(in)
+			for k := 0; k < len(in); k++ {
+				cs := observe(c, "ctrunc", in[:k])
+				cs.Parent = parent
+				out.Emit(cs)
+			}
+			for _, g := range [][]byte{{0}, {1}, {0xaa, 0xbb}} {
+				cs := observe(c, "ctrail", append(append([]byte{}, in...), g...))
+				cs.Parent = parent
+				out.Emit(cs)
+			}
+		}
 		for _, in := range c.Corpus {
-			out.Emit(observe(c, "corpus", in))
+			emitCorpus("corpus", in)
+		}
+		for _, in := range c.CorpusValid {
+			emitCorpus("cvalid", in)
 		}
 		// (a)+(b)
 		for i := 0; c.Gen != nil && i < nValid; i++ {
